@@ -549,4 +549,54 @@ theorem acc_zero_step (S d : Int) (hS : S.natAbs < 2 ^ 53) (hd : d.natAbs < 2 ^ 
     have : S.natAbs ≠ 0 := by omega
     simp [this]
 
+/-- rescaling the half-ulp bound of a quotient of two `Val14`-style floats to their integer values
+`a = mA·2^(eA+14)`, `b = mB·2^(eB+14)`: `2·|n·b − a·2^(−q)| ≤ b`. -/
+theorem half_ulp_rescale (n mA mB k : Nat) (q eA eB : Int) (hq : q ≤ 0) (hA : -14 ≤ eA) (hB : -14 ≤ eB)
+    (hE : eA - eB - (k : Int) - 1 + 2 ≤ q)
+    (h1 : n * 2 ^ (q - (eA - eB - (k : Int) - 1)).toNat * mB ≤
+      2 * mA * 2 ^ k + 2 ^ (q - (eA - eB - (k : Int) - 1) - 1).toNat * mB)
+    (h2 : 2 * mA * 2 ^ k ≤ n * 2 ^ (q - (eA - eB - (k : Int) - 1)).toNat * mB +
+      2 ^ (q - (eA - eB - (k : Int) - 1) - 1).toNat * mB) :
+    2 * (n * (mB * 2 ^ (eB + 14).toNat)) ≤ 2 * (mA * 2 ^ (eA + 14).toNat * 2 ^ (-q).toNat) + mB * 2 ^ (eB + 14).toNat ∧
+    2 * (mA * 2 ^ (eA + 14).toNat * 2 ^ (-q).toNat) ≤ 2 * (n * (mB * 2 ^ (eB + 14).toNat)) + mB * 2 ^ (eB + 14).toNat := by
+  generalize hs : (q - (eA - eB - (k : Int) - 1)).toNat = s at *
+  have hs1 : (q - (eA - eB - (k : Int) - 1) - 1).toNat = s - 1 := by omega
+  rw [hs1] at h1 h2
+  have hs2 : 2 ≤ s := by omega
+  -- exponents as naturals
+  generalize ha : (eA + 14).toNat = a at *
+  generalize hb : (eB + 14).toNat = b at *
+  generalize hu : (-q).toNat = u at *
+  have hexp : a + u + s = 1 + k + b := by omega
+  have hS : 2 ^ s = 2 * 2 ^ (s - 1) := by
+    have : s = (s - 1) + 1 := by omega
+    rw [this, Nat.pow_succ]; simp; omega
+  -- multiply the hypotheses by 2^b, the goals by 2^s, and compare
+  have hpos : 0 < 2 ^ (s - 1) := two_pow_pos _
+  have key : mA * 2 ^ a * 2 ^ u * 2 ^ s = 2 * mA * 2 ^ k * 2 ^ b := by
+    rw [Nat.mul_assoc, Nat.mul_assoc, ← Nat.pow_add, ← Nat.pow_add, Nat.mul_assoc 2, Nat.mul_assoc 2,
+      Nat.mul_assoc mA, ← Nat.pow_add, Nat.mul_left_comm 2 mA, ← Nat.pow_succ']
+    congr 2; omega
+  constructor
+  · apply Nat.le_of_mul_le_mul_right _ hpos
+    have e1 : 2 * (n * (mB * 2 ^ b)) * 2 ^ (s - 1) = n * 2 ^ s * mB * 2 ^ b := by
+      rw [hS]; simp only [Nat.mul_assoc, Nat.mul_left_comm, Nat.mul_comm]
+    have e2 : (2 * (mA * 2 ^ a * 2 ^ u) + mB * 2 ^ b) * 2 ^ (s - 1) =
+        mA * 2 ^ a * 2 ^ u * 2 ^ s + 2 ^ (s - 1) * mB * 2 ^ b := by
+      rw [hS, Nat.add_mul]; simp only [Nat.mul_assoc, Nat.mul_left_comm, Nat.mul_comm]
+    rw [e1, e2, key]
+    have := Nat.mul_le_mul_right (2 ^ b) h1
+    rw [Nat.add_mul] at this
+    exact this
+  · apply Nat.le_of_mul_le_mul_right _ hpos
+    have e1 : (2 * (n * (mB * 2 ^ b)) + mB * 2 ^ b) * 2 ^ (s - 1) =
+        n * 2 ^ s * mB * 2 ^ b + 2 ^ (s - 1) * mB * 2 ^ b := by
+      rw [hS, Nat.add_mul]; simp only [Nat.mul_assoc, Nat.mul_left_comm, Nat.mul_comm]
+    have e2 : 2 * (mA * 2 ^ a * 2 ^ u) * 2 ^ (s - 1) = mA * 2 ^ a * 2 ^ u * 2 ^ s := by
+      rw [hS]; simp only [Nat.mul_assoc, Nat.mul_left_comm, Nat.mul_comm]
+    rw [e1, e2, key]
+    have := Nat.mul_le_mul_right (2 ^ b) h2
+    rw [Nat.add_mul] at this
+    exact this
+
 end FontVerif.FloatDelta
